@@ -97,3 +97,7 @@ rt_eps_str!(rt_eps_string_2, String, 3, 48, 5, 2);
 rt_eps!(rt_eps_vec_unit_1, Vec<()>, 3, 48, 5, 1);
 // @h rt_eps_vec_z8_1 props=C02,C03,C05,C07 tier=thorough kind=bounded bound="len<=2" vars="v:Vec<Z8>, pos0=1" fns="impls/vec.rs,derive:Z8"
 rt_eps!(rt_eps_vec_z8_1, Vec<Z8>, 2, 48, 5, 1);
+// @h rt_eps_ed_3 props=C02,C05,C07,C15 tier=quick kind=complete vars="v:ED (explicit discriminants), pos0=3" fns="derive:ED"
+rt_eps!(rt_eps_ed_3, ED, 0, 32, 3, 3);
+// @h rt_eps_vec_zp_1 props=C02,C03,C05,C07 tier=quick kind=bounded bound="len<=1" vars="v:Vec<ZP> (packed), pos0=1" fns="ser/helpers.rs:serialize_slice_zero,deser/helpers.rs:deserialize_eps_slice_zero,derive:ZP"
+rt_eps!(rt_eps_vec_zp_1, Vec<ZP>, 1, 48, 9, 1);
